@@ -16,8 +16,8 @@ import (
 // ---------------------------------------------------------------- crt
 func runCRT() {
 	B := box
-	for p := int64(1); p <= B; p++ {
-		for q := int64(1); q <= B; q++ {
+	for p := int64(2); p <= B; p++ { // modulus 1 is the zero ring: nothing is claimed
+		for q := int64(2); q <= B; q++ {
 			cp, cq := capNT(p, int(p+q)), capNT(q, int(p))
 			ev := map[string]any{"p": p, "q": q}
 			safely("crt.pre", ev, func() {
@@ -123,7 +123,7 @@ type arith interface {
 func driveArith(kind string, a arith, p, q, m int64, full bool) {
 	step := int64(1)
 	if !full && m > 200 {
-		step = m/150 + 1
+		step = m/xcount + 1
 	}
 	for x := int64(0); x < m+3; x += step {
 		ev := map[string]any{"kind": kind, "p": p, "q": q, "m": m, "x": x}
@@ -188,10 +188,16 @@ func driveArith(kind string, a arith, p, q, m int64, full bool) {
 	}
 }
 
+var xcount = int64(150)
+
 func runModular() {
 	B := box
 	primes := []int64{3, 5, 7, 11, 13}
-	for m := int64(1); m <= min(B, 40); m++ {
+	quick := B <= 12
+	if quick {
+		xcount = 24
+	}
+	for m := int64(1); m <= min(B+4, 40); m++ {
 		mm, _ := numct.NewModulus(natc(m, bitlen(m)))
 		s, ok := modular.NewSimple(mm)
 		emit("ar.new", map[string]any{"kind": "simple", "p": 0, "q": 0, "m": m, "ok": b2i(ok)})
@@ -227,7 +233,7 @@ func runModular() {
 	}
 	for i, p := range primes {
 		for j, q := range primes {
-			if i == j {
+			if i == j || (quick && (i+2*j)%3 != 0 && !(p == 11 && q == 13)) {
 				continue
 			}
 			f, ok := modular.NewOddPrimeFactors(natc(p, 8), natc(q, 8))
